@@ -21,20 +21,19 @@ theorem row_class_above (f : StateFn) (a r : Nat) (res : List Act × Next)
 /-- A rune other than CAN, SUB, ESC is passed by `anywhere` to the state function. -/
 theorem anywhere_plain (r : Nat) (h1 : r ≠ 0x18) (h2 : r ≠ 0x1A) (h3 : r ≠ 0x1B) :
     handAnywhere.row (.rune r) = ([], .dispatch) := by
-  simp [StateFn.row, StateFn.arm, handAnywhere, findArm, Arm.fires, Guard.eval, h1, h2, h3]
+  simp [StateFn.row, StateFn.arm, handAnywhere, findArm, findEarly, Arm.fires, Guard.eval, h1, h2, h3]
 
 /-- `pstep` on such a rune = the state function's arm. -/
 theorem pstep_plain (s : PState) (r : Nat) (h1 : r ≠ 0x18) (h2 : r ≠ 0x1A) (h3 : r ≠ 0x1B) :
     pstep s (.rune r) =
       finish
-        (if (handFn s.state).pre.contains .deferClearIgnoreST
+        (if ((handFn s.state).row (.rune r)).1.contains .deferClearIgnoreST
           then { (runActs ((handFn s.state).row (.rune r)).1 (.rune r) s [] ((handFn s.state).row (.rune r)).2).1 with ignoreST := false }
           else (runActs ((handFn s.state).row (.rune r)).1 (.rune r) s [] ((handFn s.state).row (.rune r)).2).1)
         (runActs ((handFn s.state).row (.rune r)).1 (.rune r) s [] ((handFn s.state).row (.rune r)).2).2.1
         (runActs ((handFn s.state).row (.rune r)).1 (.rune r) s [] ((handFn s.state).row (.rune r)).2).2.2 := by
-  have hpre : handAnywhere.pre.contains Act.deferClearIgnoreST = false := by decide
   have ha : runFn handAnywhere (.rune r) s = (s, [], .dispatch) := by
-    simp only [runFn, anywhere_plain r h1 h2 h3, runActs, hpre]; rfl
+    simp only [runFn, anywhere_plain r h1 h2 h3, runActs]; rfl
   show step handTable s (.rune r) = _
   unfold step
   simp only [handTable, ha]
@@ -44,7 +43,7 @@ theorem pstep_plain (s : PState) (r : Nat) (h1 : r ≠ 0x18) (h2 : r ≠ 0x1A) (
 theorem pstep_esc (s : PState) (he : s.exit = none) :
     pstep s (.rune 0x1B) = ⟨{ s with state := .escape, inter := [], params := [] }, [], false⟩ := by
   have hrow : handAnywhere.row (.rune 0x1B) = ([.runExitIfSet, .clear, .startTimer], .st .escape) := by decide
-  have hpre : handAnywhere.pre.contains Act.deferClearIgnoreST = false := by decide
+  have hpre : ([.runExitIfSet, .clear, .startTimer] : List Act).contains Act.deferClearIgnoreST = false := by decide
   show step handTable s (.rune 0x1B) = _
   unfold step
   simp only [handTable, runFn, hrow, hpre, runActs, applyAct, he]
@@ -178,7 +177,7 @@ theorem pstep_esc_exit (s : PState) (f : ExitFn) (he : s.exit = some f) :
     pstep s (.rune 0x1B) =
       ⟨{ (runExitFn s f).1 with state := .escape, inter := [], params := [], exit := none }, (runExitFn s f).2, false⟩ := by
   have hrow : handAnywhere.row (.rune 0x1B) = ([.runExitIfSet, .clear, .startTimer], .st .escape) := by decide
-  have hpre : handAnywhere.pre.contains Act.deferClearIgnoreST = false := by decide
+  have hpre : ([.runExitIfSet, .clear, .startTimer] : List Act).contains Act.deferClearIgnoreST = false := by decide
   show step handTable s (.rune 0x1B) = _
   unfold step
   simp only [handTable, runFn, hrow, hpre, runActs, applyAct, he]
